@@ -36,7 +36,7 @@ def describe(tier):
         "scan_node activations - 1, read by the registry wrapper) and the multiset of (level, searched value) passes equals that of the reference procedure run with budget k (so descending into decoder-supplied sub-structure costs one level per nesting level); the scan terminates although modes rd/rk/dT make every decoded value "
         "decodable again. Oracle (ii) for every pair (k, k+1): tree(k) == tree(k+1) with every node produced by the deepest search pass "
         "(level k) removed -- which implies the order-preserving sub-list relation of every child list. 'layers' = base64^n, hex^n, "
-        "(concat o base64)^n for n=1..12 on the shipped registry x k=-1..13. Decoded-volume axis: one scan producing ~9 x s bytes of decoded data (s up to 3 MiB, thorough 32 MiB) before a later sibling that decodes again, at k=-1..12. Caller-stack axis: every 1-hit configuration (N=3, modes rd/rk/rp) and base64^12 at k=-1..13 is "
+        "(concat o base64)^n for n=1..12 on the shipped registry x k=-1..13. After-failure axis: a scan with limit 1..6 is aborted by RuntimeError / KeyboardInterrupt escaping from a user decoder at every recursion level; afterwards the same and a fresh scanner must return the k-limited trees computed beforehand for k=-1..12. Decoded-volume axis: one scan producing ~9 x s bytes of decoded data (s up to 3 MiB, thorough 32 MiB) before a later sibling that decodes again, at k=-1..12. Caller-stack axis: every 1-hit configuration (N=3, modes rd/rk/rp) and base64^12 at k=-1..13 is "
         f"scanned from a recursive caller with (frames already on the stack, recursion limit) in {CALLER_DEPTHS}: same passes as the model, same tree as from a shallow caller "
         "(a scan for which the caller left too little stack, RecursionError, is skipped). Non-trivial = a pair (k,k+1) whose trees differ.",
         "bounds": BOUNDS[tier],
@@ -59,12 +59,64 @@ def plan(tier, seed):
         units.append((tier, "callstack", d))
     for s in VOLUMES[tier]:
         units.append((tier, "volume", s))
+    units.append((tier, "after-failure"))
     return units
 
 
 # total amount of decoded data produced by ONE scan (a budget on it would make a deeper limit starve later siblings): one blob of s bytes under
 # 9 layers, followed by a small blob under 3 layers; total decoded volume ~ 9 * s
 VOLUMES = {"quick": (4096, 65536, 1 << 20, (2 << 20) + 1, 3 << 20), "thorough": (4096, 65536, 1 << 20, (2 << 20) + 1, 3 << 20, 8 << 20, 32 << 20)}
+
+
+def run_after_failure(rec):
+    """A scan is aborted by an exception escaping from a user decoder at recursion level d of a scan with limit L (the caller catches it and
+    carries on); afterwards every scan - same scanner, fresh scanner - must apply the decoders to exactly the levels its own limit allows."""
+    from multidecoder.multidecoder import Multidecoder
+
+    data = b"#9aaaa #3bb"
+    ks = tuple(range(-1, 13))
+    expected = {k: trees.tup(Multidecoder([_peel]).scan(data, k)) for k in ks}
+    n = 0
+    for exc in (RuntimeError, KeyboardInterrupt):
+        for L in range(1, 7):
+            for d in range(0, L):
+                state = {"armed": True}
+
+                def bomb(value, d=d, state=state, exc=exc):
+                    if state["armed"] and value[:2] == b"#" + bytes([0x39 - d]):
+                        raise exc("user decoder failed")
+                    return []
+
+                md = Multidecoder([_peel, bomb])
+                try:
+                    md.scan(data, L)
+                    raised = False
+                except exc:
+                    raised = True
+                state["armed"] = False
+                if not raised:
+                    # the decoders were not applied at level d < L at all (only possible if an earlier aborted scan left something behind)
+                    rec.violation("C07.passes-equal-model", "depth-rule-broken-after-an-aborted-scan", {"engine": "after-failure", "exc": exc.__name__, "L": L, "d": d, "depth": L},
+                                  f"scan(data, {L}) never applied the decoders at recursion level {d} (< {L}) after earlier scans had been aborted by an exception", L * 10 + d)
+                    continue
+                for who, scanner in (("same scanner", md), ("fresh scanner", Multidecoder([_peel]))):
+                    for k in ks:
+                        rec.count("evaluations")
+                        rec.mark("states", ("after-failure", exc.__name__, L, d, who, k), True)
+                        w = {"engine": "after-failure", "exc": exc.__name__, "L": L, "d": d, "depth": k}
+                        ok, t = rec.guard(TOTAL, w, L * 10 + d, scanner.scan, data, k)
+                        if not ok:
+                            continue
+                        rec.count("traces")
+                        rec.count("transitions")
+                        n += 1
+                        if k > 0:
+                            rec.mark("nontrivial", 0, True)
+                        if trees.tup(t) != expected[k]:
+                            rec.violation("C07.passes-equal-model", "depth-rule-broken-after-an-aborted-scan", w,
+                                          f"after a scan with limit {L} was aborted by {exc.__name__} at recursion level {d}, scan(data, {k}) on the {who} returns "
+                                          f"{core.short(trees.tup(t), 140)} instead of {core.short(expected[k], 140)}", L * 10 + d)
+    rec.sample({"engine": "after-failure", "aborted_scans": "limits 1..6 x every level x RuntimeError / KeyboardInterrupt", "scans_checked": n})
 
 
 def _peel(value):
@@ -288,6 +340,8 @@ def run_unit(unit, rec):
                               f"12 base64 layers, depth limit {k}: the tree of a scan started with {caller[0]} frames on the stack (recursion limit {caller[1]}) differs from the "
                               f"tree of the same scan started from a shallow caller", 12000 + k)
         rec.sample({"callstack": list(caller), "synthetic_configurations": n, "ks": "-1..13"})
+    elif kind == "after-failure":
+        run_after_failure(rec)
     elif kind == "volume":
         s = unit[2]
         data = b"#9" + b"a" * s + b" #3bbbbbbbb"
@@ -313,6 +367,8 @@ def replay(w, rec):
     ks = tuple(sorted(set(w.get("ks", [])) | {k - 1, k, k + 1}))
     if eng == "hitx-ladder":
         synth(rec, w["T"], tuple(tuple(h) for h in w["hits"]), w["mode"], w["grouped"], ks, caller=tuple(w["caller"]) if w.get("caller") else None)
+    elif eng == "after-failure":
+        run_after_failure(rec)
     elif eng == "volume":
         run_unit(("quick", "volume", w["size"]), rec)
     elif eng == "layers-callstack":
